@@ -216,16 +216,39 @@ pub fn run(ctx: &mut Ctx) {
         extras: true,
         all_widths: true,
     };
-    ctx.meta("rule", "cases: (tree, per-element options); trees = forests over V up to the node bound + deep spines + size-boundary documents (payload / master content of 124..128 and 16379..16384 bytes); options = every known/unknown choice of masters x deviations among size width 1..8 per master/leaf and payload class. For each case the real writer is driven with (a) Start/children/End, (b) EVERY way of collapsing masters into Full items, (c) the deprecated unknown-size call, (c2) Ends carrying the option of their Start, (c3) the trailing Ends left to into_inner(), (c4) one call that the writer rejects (End of a master that is not open, a 127-byte string with a 1-byte size field) put in at every position, (d) destinations that accept only a few bytes per write (all compositions for outputs <= 10 bytes, else <= 3 deviations, incl. Interrupted). Oracle: (b),(c),(c2),(c3),(c4),(d) byte-identical to (a); (a) walked with RefCodec guided by the tree: ids, payloads, order, size values == actual content lengths, requested width exact, unknown => all-ones, never the reserved all-ones for a known size; a width that cannot hold the size must be rejected with TagSizeError. Non-trivial: presentations whose call count differs from (a).");
+    ctx.meta("rule", "cases: (tree, per-element options); trees = forests over V up to the node bound + deep spines + Root[leaf] for every payload class of every data type x every explicit size width 1..8 + size-boundary documents (payload / master content of 124..128 and 16379..16384 bytes); options = every known/unknown choice of masters x deviations among size width 1..8 per master/leaf and payload class. For each case the real writer is driven with (a) Start/children/End, (b) EVERY way of collapsing masters into Full items, (c) the deprecated unknown-size call, (c2) Ends carrying the option of their Start, (c3) the trailing Ends left to into_inner(), (c4) one call that the writer rejects (End of a master that is not open, a 127-byte string with a 1-byte size field) put in at every position, (d) destinations that accept only a few bytes per write (all compositions for outputs <= 10 bytes, else <= 3 deviations, incl. Interrupted). Oracle: (b),(c),(c2),(c3),(c4),(d) byte-identical to (a); (a) walked with RefCodec guided by the tree: ids, payloads, order, size values == actual content lengths, requested width exact, unknown => all-ones, never the reserved all-ones for a known size; a width that cannot hold the size must be rejected with TagSizeError. Non-trivial: presentations whose call count differs from (a).");
     ctx.meta("bounds", &format!("forests <= {} elements, <= {} option deviations, all Full antichains", p.max_nodes, p.devs));
     ctx.meta("assumptions", "default (unrequested) size widths are not constrained beyond well-formedness || whether an explicit master width can hold its content is judged with minimal inner widths");
-    for c in ["closed_by_into_inner", "ends_carrying_options", "full_presentations", "deprecated_unknown_presentations", "short_write_schedules", "explicit_width_too_small_rejected", "size_boundary_docs", "presentations_with_a_rejected_call"] {
+    for c in ["closed_by_into_inner", "ends_carrying_options", "full_presentations", "deprecated_unknown_presentations", "short_write_schedules", "explicit_width_too_small_rejected", "size_boundary_docs", "presentations_with_a_rejected_call", "payload_class_x_width_docs"] {
         ctx.expect_nonzero(c);
     }
     docs::for_each_doc(ctx, &rs, &p, &mut |ctx, doc| {
         check_doc(ctx, &rs, doc);
         !ctx.should_stop()
     });
+    // every payload class of every data type under every explicit size-field width (the deviation budget of the
+    // main sweep allows a non-default payload OR a width on one leaf, not both)
+    {
+        let mut k = 0u64;
+        for (id, ty) in [(ID_U, Ty::U), (ID_I, Ty::I), (ID_F, Ty::F), (ID_S, Ty::S), (ID_B, Ty::B)] {
+            for v in gen::payload_classes(ty, true) {
+                for w in 1..=8u8 {
+                    let mine = ctx.mine(k);
+                    k += 1;
+                    if !mine {
+                        continue;
+                    }
+                    let mut leaf = Node::leaf(id, v.clone());
+                    leaf.size = SizeEnc::Width(w);
+                    ctx.count("payload_class_x_width_docs", 1);
+                    check_doc(ctx, &rs, &vec![Node::master(ID_ROOT, vec![leaf.clone()])]);
+                    let mut unk = Node::master(ID_ROOT, vec![leaf]);
+                    unk.size = SizeEnc::Unknown(8);
+                    check_doc(ctx, &rs, &vec![unk]);
+                }
+            }
+        }
+    }
     for (i, doc) in docs::size_boundary_docs().into_iter().enumerate() {
         if !ctx.mine(i as u64) {
             continue;
